@@ -261,7 +261,8 @@ var chainRng = rand.New(rand.NewSource(seed()))
 // registration must accept it iff the model says so; an accepted chain must run in order and Abort() at its first
 // handler must stop it.
 func chainLimit(s *Summary, n int, accepted bool) {
-	for _, viaGroup := range []bool{false, true} {
+	for _, via := range []string{"GET", "group+GET", "group+prebuilt route", "group+Any"} {
+		viaGroup := via != "GET"
 		for _, abortFirst := range []bool{false, true} {
 			log := []int{}
 			aborted := []bool{}
@@ -284,7 +285,16 @@ func chainLimit(s *Summary, n int, accepted bool) {
 				defer func() { pan = recover() }()
 				if viaGroup {
 					half := len(mw) / 2
-					r.Group("/g", func() { r.GET("/x", mk(n), mw[half:]...) }, mw[:half]...)
+					r.Group("/g", func() {
+						switch via {
+						case "group+prebuilt route": // the route carries its middleware when it is attached inside the group
+							rux.NewRoute("/x", mk(n), "GET").Use(mw[half:]...).AttachTo(r)
+						case "group+Any":
+							r.Any("/x", mk(n), mw[half:]...)
+						default:
+							r.GET("/x", mk(n), mw[half:]...)
+						}
+					}, mw[:half]...)
 				} else {
 					r.GET("/g/x", mk(n), mw...)
 				}
@@ -292,7 +302,7 @@ func chainLimit(s *Summary, n int, accepted bool) {
 			s.Compared++
 			desc := func(what string) map[string]any {
 				return map[string]any{"kind": "chain", "aspect": "limit", "chain_len": n, "what": fmt.Sprintf(
-					"route with %d middleware + main (no global middleware, via group=%v): %s", n-1, viaGroup, what)}
+					"route with %d middleware + main (no global middleware, registered via %s): %s", n-1, via, what)}
 			}
 			if (pan == nil) != accepted {
 				s.mismatch(desc(fmt.Sprintf("registration accepted=%v, the documented limit says %v", pan == nil, accepted)), map[string]any{"limit": n})
